@@ -35,6 +35,7 @@ func (c *Clause) HasProp(p string) bool {
 type LoopSpec struct {
 	Invs      []*Clause
 	Decreases *Clause
+	Sets      []*GhostSet // ghost updates applied on every back edge
 }
 
 type GhostSet struct {
@@ -337,6 +338,17 @@ func (sp *Specs) loadFile(path, pkgPath string) error {
 				if ls == nil {
 					ls = &LoopSpec{}
 					cur.Loops[k] = ls
+				}
+				if parts[1] == "backedge" {
+					if !strings.HasPrefix(strings.TrimSpace(parts[2]), "set ") {
+						return fail(fmt.Errorf("loop k backedge set g(args) = e"))
+					}
+					gs, err := parseGhostSet(strings.TrimSpace(strings.TrimSpace(parts[2])[4:]))
+					if err != nil {
+						return fail(err)
+					}
+					ls.Sets = append(ls.Sets, gs)
+					continue
 				}
 				c, err := mkClause(strings.TrimSpace(parts[2]))
 				if err != nil {
